@@ -163,6 +163,11 @@ fn reload(b: &Built) -> Arc<ReadonlyRepo> { b.test_repo.env.load_repo_at_head(&b
 fn guarded(what: &str, f: impl FnOnce() -> Option<Value>) -> Option<Value> {
     match catch(AssertUnwindSafe(f)) {
         Ok(x) => x,
+        // not a violation but an inapplicable input: with the fixed `debug.commit-timestamp` of the harness, re-applying an
+        // edit to resurrected old commits (e.g. abandon x, commit, add_head(old descendant), abandon x again) makes
+        // rebase_descendants re-create a bit-identical commit, which CommitBuilder::write refuses with a clean Err
+        // ("Newly-created commit .. already exists"); with real timestamps the ids differ
+        Err(p) if p.contains("Newly-created commit") && p.contains("already exists") => None,
         Err(p) => Some(json!({"observed": format!("panic: {p}"), "required": format!("{what} does not panic")})),
     }
 }
@@ -421,6 +426,9 @@ fn c10_check(h: &Hist, ops: &[Value]) -> Option<Value> {
         let mut repo = b.repo.clone();
         let mut pos = 0;
         let mut step = 0;
+        // "every added side of every local bookmark is visible" is checked from the first bookmark op on, until a raw
+        // remove_head (which may legitimately hide anything) is applied
+        let (mut bm_seen, mut bm_dead) = (false, false);
         while pos < ops.len() {
             let mut tx = repo.start_transaction();
             while pos < ops.len() {
@@ -430,7 +438,7 @@ fn c10_check(h: &Hist, ops: &[Value]) -> Option<Value> {
                 let arg = op.get(1).and_then(|a| a.as_u64()).unwrap_or(0) as usize;
                 match kind {
                     "add" => tx.repo_mut().add_head(&commits[arg]).block_on().unwrap(),
-                    "remove" => tx.repo_mut().remove_head(commits[arg].id()),
+                    "remove" => { tx.repo_mut().remove_head(commits[arg].id()); if bm_seen { bm_dead = true; } }
                     "new" => {
                         let ps: Vec<usize> = serde_json::from_value(op[1].clone()).unwrap();
                         let i = commits.len();
@@ -440,6 +448,14 @@ fn c10_check(h: &Hist, ops: &[Value]) -> Option<Value> {
                     "rewrite" => { let c = tx.repo_mut().rewrite_commit(&commits[arg]).set_description(format!("rw{arg}-{pos}")).write_unwrap(); commits.push(c); }
                     "abandon" => tx.repo_mut().record_abandoned_commit(&commits[arg]),
                     "rebase" => { tx.repo_mut().rebase_descendants().block_on().unwrap(); }
+                    "bm" => {
+                        // local bookmark b<arg> := adds[0] - removes[0] + adds[1] .. (normal target when there is no remove)
+                        let adds: Vec<usize> = serde_json::from_value(op[2].clone()).unwrap();
+                        let removes: Vec<usize> = serde_json::from_value(op[3].clone()).unwrap();
+                        let target = RefTarget::from_merge(jj_lib::merge::Merge::from_removes_adds(removes.iter().map(|i| Some(commits[*i].id().clone())), adds.iter().map(|i| Some(commits[*i].id().clone()))));
+                        tx.repo_mut().set_local_bookmark_target(format!("b{arg}").as_str().as_ref(), target);
+                        bm_seen = true;
+                    }
                     _ => break, // "commit"
                 }
             }
@@ -458,6 +474,12 @@ fn c10_check(h: &Hist, ops: &[Value]) -> Option<Value> {
                     if x != y && g.ancestors([y.clone()]).contains(x) { return Some(json!({"observed": format!("heads after commit #{step} ({label}): {shown:?}; {} is an ancestor of {}", short(x), short(y)), "required": "no head is an ancestor of another head"})); }
                 } }
                 if heads.contains(&root_id) && heads.len() > 1 { return Some(json!({"observed": format!("heads after commit #{step} ({label}): {shown:?} contain the root next to other heads"), "required": "the root is a head only when it is the only head"})); }
+                if bm_seen && !bm_dead {
+                    let visible = g.ancestors(heads.iter().cloned());
+                    for (bname, target) in rp.view().local_bookmarks() { for id in target.added_ids() {
+                        if !visible.contains(id) { return Some(json!({"observed": format!("after commit #{step} ({label}) local bookmark {} has the added side {} which is not reachable from the recorded heads {shown:?}", bname.as_str(), short(id)), "required": "every commit a local bookmark points to (each side of a conflicted bookmark) is visible after every committed operation"})); }
+                    } }
+                }
                 let mut vis_pre = g.ancestors(pre.iter().cloned()); vis_pre.insert(root_id.clone());
                 let vis_post = g.ancestors(heads.iter().cloned());
                 if vis_pre != vis_post {
@@ -476,6 +498,10 @@ fn c10_valid(h: &Hist, ops: &[Value]) -> bool {
             "add" | "remove" => if op[1].as_u64().map_or(true, |a| a as usize >= n) { return false; },
             "rewrite" | "abandon" => { if op[1].as_u64().map_or(true, |a| a as usize >= n || a == 0) { return false; } if kind == "rewrite" { n += 1; } }
             "new" => { let Ok(ps) = serde_json::from_value::<Vec<usize>>(op[1].clone()) else { return false }; if ps.is_empty() || ps.iter().any(|p| *p >= n) || (ps.len() > 1 && ps.contains(&0)) || ps.iter().collect::<BTreeSet<_>>().len() != ps.len() { return false; } n += 1; }
+            "bm" => {
+                let (Ok(adds), Ok(removes)) = (serde_json::from_value::<Vec<usize>>(op[2].clone()), serde_json::from_value::<Vec<usize>>(op[3].clone())) else { return false };
+                if op[1].as_u64().is_none() || adds.len() != removes.len() + 1 || adds.iter().chain(&removes).any(|x| *x >= n) { return false; }
+            }
             "rebase" | "commit" => {}
             _ => return false,
         }
@@ -485,15 +511,29 @@ fn c10_valid(h: &Hist, ops: &[Value]) -> bool {
 fn c10_random_ops(rng: &mut Rng, h: &Hist, len: usize, root_add: bool) -> Vec<Value> {
     let mut n = h.n();
     let mut ops = vec![];
+    // commits that an earlier op tried to hide (removed heads, abandoned / rewritten commits): preferred as parents of new
+    // merges and as sides of conflicted bookmarks
+    let mut hidden_cand: Vec<usize> = vec![];
     for _ in 0..len {
         let any = |rng: &mut Rng, n: usize| rng.below(n as u64) as usize;
         let nonroot = |rng: &mut Rng, n: usize| 1 + rng.below(n as u64 - 1) as usize;
-        match rng.below(12) {
+        match rng.below(16) {
+            12 | 13 if n > 2 => {
+                // new merge of a (probably) hidden commit and another commit
+                let hcand = if hidden_cand.is_empty() { nonroot(rng, n) } else { hidden_cand[rng.below(hidden_cand.len() as u64) as usize] };
+                let other = nonroot(rng, n);
+                if hcand != other && hcand != 0 { ops.push(if rng.below(2) == 0 { json!(["new", [other, hcand]]) } else { json!(["new", [hcand, other]]) }); n += 1; }
+            }
+            14 | 15 if n > 2 => {
+                let hcand = if hidden_cand.is_empty() { nonroot(rng, n) } else { hidden_cand[rng.below(hidden_cand.len() as u64) as usize] };
+                let (x, y) = (any(rng, n), any(rng, n));
+                ops.push(match rng.below(3) { 0 => json!(["bm", rng.below(2), [hcand], []]), 1 => json!(["bm", rng.below(2), [x, hcand], [y]]), _ => json!(["bm", rng.below(2), [hcand, x], [y]]) });
+            }
+            3..=5 => { let x = any(rng, n); hidden_cand.push(x); ops.push(json!(["remove", x])); }
+            9 if n > 1 => { let x = nonroot(rng, n); hidden_cand.push(x); ops.push(json!(["abandon", x])); }
             0..=2 => ops.push(json!(["add", if root_add || n == 1 { any(rng, n) } else { nonroot(rng, n) }])),
-            3..=5 => ops.push(json!(["remove", any(rng, n)])),
             6..=7 => { let k = 1 + rng.below(2); let mut s = BTreeSet::new(); for _ in 0..k { s.insert(any(rng, n)); } if s.len() > 1 { s.remove(&0); } ops.push(json!(["new", s.into_iter().collect::<Vec<_>>()])); n += 1; }
             8 if n > 1 => { ops.push(json!(["rewrite", nonroot(rng, n)])); n += 1; }
-            9 if n > 1 => ops.push(json!(["abandon", nonroot(rng, n)])),
             10 => ops.push(json!(["rebase"])),
             _ => ops.push(json!(["commit"])),
         }
@@ -527,6 +567,23 @@ fn c10_run(func: &str, replay: Option<Value>, seed: u64) -> Value {
         for i in 1..n { singles.push(json!(["abandon", i])); singles.push(json!(["rewrite", i])); }
         let mut seqs: Vec<Vec<Value>> = singles.iter().map(|s| vec![s.clone()]).collect();
         if k <= 2 { for a in &singles { for b2 in &singles { seqs.push(vec![a.clone(), b2.clone()]); } } } else { for a in &singles { for b2 in &singles { if a[0] == "remove" { seqs.push(vec![a.clone(), b2.clone()]); } } } }
+        // a childless commit l is hidden (abandoned, or its head removed and its parents re-added), then -- in the same
+        // transaction or after a commit -- a NEW commit is written on it (alone, or as a merge with any other commit),
+        // or a bookmark is pointed at it (normal, or as either side of a conflict)
+        if k >= 2 {
+            for l in 1..n { if p.iter().any(|ps| ps.contains(&l)) { continue; }
+                let mut hide: Vec<Vec<Value>> = vec![vec![json!(["abandon", l]), json!(["rebase"])]];
+                let mut v = vec![json!(["remove", l])]; for q in &p[l] { v.push(json!(["add", q])); } hide.push(v);
+                for pre in hide { for sep in [vec![], vec![json!(["commit"])]] {
+                    let mut tails: Vec<Value> = vec![json!(["new", [l]]), json!(["bm", 0, [l], []])];
+                    for x in 1..n { if x != l {
+                        tails.push(json!(["new", [x, l]])); tails.push(json!(["new", [l, x]]));
+                        tails.push(json!(["bm", 0, [x, l], [p[l][0]]])); tails.push(json!(["bm", 0, [l, x], [p[l][0]]]));
+                    } }
+                    for t in tails { let mut ops = pre.clone(); ops.extend(sep.clone()); ops.push(t); seqs.push(ops); }
+                } }
+            }
+        }
         for ops in seqs { cnt += 1; if let Some(r) = c10_check(&h, &ops) { return hit(input(&h, &ops), r, name); } }
     } }
     let mut rng = Rng::new(seed ^ 0x10);
@@ -540,7 +597,7 @@ fn c10_run(func: &str, replay: Option<Value>, seed: u64) -> Value {
         rnd += 1;
         if let Some(r) = c10_check(&h, &ops) { return hit(input(&h, &ops), r, name); }
     }
-    none(&format!("scope exhausted: {cnt} cases = every DAG with <= 3 non-root commits x every sequence of <= 2 of add_head/remove_head/rewrite/abandon (+rebase_descendants) in one transaction; then {rnd} seeded random histories (<= 9 commits) with <= 8 ops (add_head, remove_head, new commit, rewrite, abandon, rebase_descendants, intermediate commits), heads checked after every Transaction::commit in memory and reloaded{}, seed {seed}", if root_add { "" } else { "; add_head(root) next to another head is excluded (known violation, see source / report)" }))
+    none(&format!("scope exhausted: {cnt} cases = every DAG with <= 3 non-root commits x every sequence of <= 2 of add_head/remove_head/rewrite/abandon (+rebase_descendants) in one transaction, and every 'hide a childless commit (abandon / remove_head + add_head of its parents), then write a new commit or merge on it or point a normal / conflicted bookmark at it' sequence; then {rnd} seeded random histories (<= 9 commits) with <= 8 ops (add_head, remove_head, new commits and merges on hidden commits, rewrite, abandon, rebase_descendants, normal and conflicted local bookmarks incl. hidden sides, intermediate commits), heads checked after every Transaction::commit in memory and reloaded, every bookmark side visible (until a raw remove_head){}, seed {seed}", if root_add { "" } else { "; add_head(root) next to another head is excluded (known violation, see source / report)" }))
 }
 
 // ---------------------------------------------------------------------------------------------------------------------
@@ -1153,13 +1210,19 @@ fn c11_valid(h: &Hist, marks: &[usize], edits: &[Value]) -> bool {
     }
     true
 }
-fn c11_check(h: &Hist, marks: &[usize], edits: &[Value]) -> Option<Value> {
+fn c11_check(h: &Hist, marks: &[usize], edits: &[Value]) -> Option<Value> { c11_check_c(h, marks, &[], edits) }
+/// `cmarks`: conflicted local bookmarks cb<k> = adds[0] - removes[0] + adds[1] ..
+fn c11_check_c(h: &Hist, marks: &[usize], cmarks: &[(Vec<usize>, Vec<usize>)], edits: &[Value]) -> Option<Value> {
     guarded("rewrite / abandon + rebase_descendants", || {
         let b = build(h);
         let n = h.n();
         let root_id = b.repo.store().root_commit_id().clone();
         let mut tx = b.repo.start_transaction();
         for (k, m) in marks.iter().enumerate() { tx.repo_mut().set_local_bookmark_target(format!("b{k}").as_str().as_ref(), RefTarget::normal(b.commits[*m].id().clone())); }
+        for (k, (adds, removes)) in cmarks.iter().enumerate() {
+            let target = RefTarget::from_merge(jj_lib::merge::Merge::from_removes_adds(removes.iter().map(|i| Some(b.commits[*i].id().clone())), adds.iter().map(|i| Some(b.commits[*i].id().clone()))));
+            tx.repo_mut().set_local_bookmark_target(format!("cb{k}").as_str().as_ref(), target);
+        }
         let repo = tx.commit("bookmarks").block_on().unwrap();
         // intended final graph over the ORIGINAL nodes
         let mut fparents = h.parents.clone();
@@ -1225,6 +1288,17 @@ fn c11_check(h: &Hist, marks: &[usize], edits: &[Value]) -> Option<Value> {
                 let ok = !added.is_empty() && added.iter().all(|a| exp_ids.contains(a)) && (exp_ids.len() != 1 || (added.len() == 1 && !t.has_conflict()));
                 if !ok { return Some(json!({"observed": format!("bookmark b{k} (was at node {m}) points at {:?} ({label})", added.iter().map(|a| g.commits.get(a).map_or(short(a), |c| c.description().trim().to_string())).collect::<Vec<_>>()), "required": format!("the current versions of nodes {exp:?} (the rewrite of its commit, or the parents of an abandoned commit)")})); }
             }
+            // (5) every added side of a conflicted bookmark follows: none is left on a hidden (rewritten, abandoned or
+            // rebased-away) commit
+            for (k, (adds, removes)) in cmarks.iter().enumerate() {
+                let t = rp.view().get_local_bookmark(format!("cb{k}").as_str().as_ref());
+                for a in t.added_ids() {
+                    if !visible.contains(a) || old_ids.contains(a) {
+                        let was = b.commits.iter().position(|c| c.id() == a).map_or("a commit".to_string(), |i| format!("the old node {i}"));
+                        return Some(json!({"observed": format!("conflicted bookmark cb{k} (was +{adds:?} -{removes:?}) still has {was} ({}) as an added side, which is no longer visible ({label})", short(a)), "required": "every added side of a bookmark that pointed at a rewritten / rebased commit points at its rewrite (abandoned: its parents)"}));
+                    }
+                }
+            }
         }
         None
     })
@@ -1273,7 +1347,9 @@ fn c11_run(func: &str, replay: Option<Value>, seed: u64) -> Value {
         let marks: Vec<usize> = inp.get("bookmarks").and_then(|x| serde_json::from_value(x.clone()).ok()).unwrap_or_default();
         let edits: Vec<Value> = inp.get("edits").and_then(|o| o.as_array()).cloned().unwrap_or_default();
         if !c11_valid(&h, &marks, &edits) { return none("replay input is not a valid C11 edit list"); }
-        return match c11_check(&h, &marks, &edits) { Some(r) => hit(inp, r, name), None => none("replayed input satisfies the C11 executable contract") };
+        let cmarks: Vec<(Vec<usize>, Vec<usize>)> = inp.get("cbookmarks").and_then(|x| serde_json::from_value(x.clone()).ok()).unwrap_or_default();
+        if cmarks.iter().any(|(a, r)| a.len() != r.len() + 1 || a.iter().chain(r).any(|x| *x >= h.n())) { return none("replay input has an invalid conflicted bookmark"); }
+        return match c11_check_c(&h, &marks, &cmarks, &edits) { Some(r) => hit(inp, r, name), None => none("replayed input satisfies the C11 executable contract") };
     }
     let input = |h: &Hist, marks: &[usize], edits: &[Value]| { let mut v = h.to_json(); v["kind"] = json!("C11"); v["bookmarks"] = json!(marks); v["edits"] = json!(edits); v };
     // exhaustive: every DAG with <= 3 non-root commits, a bookmark on every node, every single edit and every pair of edits
@@ -1302,12 +1378,47 @@ fn c11_run(func: &str, replay: Option<Value>, seed: u64) -> Value {
             if let Some(r) = c11_check(&h, &[4, 2], &edits) { return hit(input(&h, &[4, 2], &edits), r, name); }
         }
     }
+    // conflicted bookmarks {+i -r +j}: every DAG with <= 3 non-root commits, every ordered pair of added sides, with both
+    // sides rewritten, or any single commit rewritten / abandoned (the sides are then rebased)
+    for k in 2..=3 { for p in all_dags(k) {
+        let h = Hist { parents: p.clone(), tx: vec![k], fork: None, reload: false, salt: 0 };
+        let n = h.n();
+        for i in 1..n { for j in 1..n { if i != j {
+            let r = (0..n).find(|r| *r != i && *r != j).unwrap();
+            let cm = vec![(vec![i, j], vec![r])];
+            let mut edit_sets: Vec<Vec<Value>> = vec![vec![json!(["rewrite", i, null]), json!(["rewrite", j, null])]];
+            for q in 1..n { edit_sets.push(vec![json!(["rewrite", q, null])]); edit_sets.push(vec![json!(["abandon", q])]); }
+            for edits in edit_sets {
+                if !known && c11_known_order_defect(&h, &edits) { continue; }
+                cnt += 1;
+                if let Some(r) = c11_check_c(&h, &[], &cm, &edits) { let mut v = input(&h, &[], &edits); v["cbookmarks"] = json!(cm); return hit(v, r, name); }
+            }
+        } } }
+    } }
+    // every 4-commit shape whose last commit is a merge with two parents in an ancestor relation: every combination of
+    // rewrite-in-place / abandon / nothing on the three other commits with at least two edits, edits applied in both orders
+    for p in all_dags(4) {
+        let r4 = reach(&p);
+        if !(p[4].len() >= 2 && p[4].iter().any(|a| p[4].iter().any(|d| a != d && r4[*d][*a]))) { continue; }
+        let h = Hist { parents: p.clone(), tx: vec![4], fork: None, reload: false, salt: 0 };
+        for code in 0..27usize {
+            let mut edits = vec![];
+            for i in 1..=3usize { match code / 3usize.pow(i as u32 - 1) % 3 { 1 => edits.push(json!(["abandon", i])), 2 => edits.push(json!(["rewrite", i, null])), _ => {} } }
+            if edits.len() < 2 { continue; }
+            for rev in [false, true] {
+                let mut e2 = edits.clone(); if rev { e2.reverse(); }
+                if !known && c11_known_order_defect(&h, &e2) { continue; }
+                cnt += 1;
+                if let Some(r) = c11_check(&h, &[4], &e2) { return hit(input(&h, &[4], &e2), r, name); }
+            }
+        }
+    }
     let mut rng = Rng::new(seed ^ 0x11);
     let t0 = std::time::Instant::now();
     let mut rnd = 0;
     let mut cut = 0;
     // a fixed number of cases (reproducible whatever the machine load); the clock is only a safety net
-    while rnd + cut < budget(400) && t0.elapsed().as_secs_f64() < 90.0 * budget(100) as f64 / 100.0 {
+    while rnd + cut < budget(300) && t0.elapsed().as_secs_f64() < 90.0 * budget(100) as f64 / 100.0 {
         let mut h = random_hist(&mut rng, 9, false);
         h.reload = false;
         let n = h.n();
@@ -1325,10 +1436,11 @@ fn c11_run(func: &str, replay: Option<Value>, seed: u64) -> Value {
         }
         if !known && c11_known_order_defect(&h, &edits) { cut += 1; continue; }
         rnd += 1;
-        if let Some(r) = c11_check(&h, &marks, &edits) { return hit(input(&h, &marks, &edits), r, name); }
+        let cmarks: Vec<(Vec<usize>, Vec<usize>)> = if n >= 4 && rng.below(2) == 0 { let a = 1 + rng.below(n as u64 - 1) as usize; let mut c = 1 + rng.below(n as u64 - 1) as usize; if c == a { c = if a == 1 { 2 } else { a - 1 }; } vec![(vec![a, c], vec![rng.below(n as u64) as usize])] } else { vec![] };
+        if let Some(r) = c11_check_c(&h, &marks, &cmarks, &edits) { let mut v = input(&h, &marks, &edits); v["cbookmarks"] = json!(cmarks); return hit(v, r, name); }
     }
     let cut_note = if known { String::new() } else { format!("; {cut} random inputs with the known order_commits_for_rebase defect pattern (abandoned commit on an explicitly rewritten commit that itself must be rebased, see source) were cut") };
-    none(&format!("scope exhausted: {cnt} cases = every DAG with <= 3 non-root commits, a bookmark on every commit, every single and every pair of rewrite (same parents / re-parented) / abandon edits, and the 4-chain with every abandon/rewrite combination; then {rnd} seeded random histories (<= 9 commits, <= 4 edits, <= 3 bookmarks); after rebase_descendants and commit (in memory and reloaded): no visible commit is or has as parent a rewritten/abandoned commit, one visible commit per surviving change id with its description, parents are the current versions of the intended parents, bookmarks follow{cut_note}, seed {seed}"))
+    none(&format!("scope exhausted: {cnt} cases = every DAG with <= 3 non-root commits, a bookmark on every commit, every single and every pair of rewrite (same parents / re-parented) / abandon edits, the 4-chain with every abandon/rewrite combination, conflicted bookmarks {{+i -r +j}} on every DAG with <= 3 commits (both sides rewritten, or any commit rewritten / abandoned), every 4-commit shape ending in a merge of two ancestor-related parents x every >= 2 rewrite/abandon edits of the other commits in both orders; then {rnd} seeded random histories (<= 9 commits, <= 4 edits, <= 3 bookmarks); after rebase_descendants and commit (in memory and reloaded): no visible commit is or has as parent a rewritten/abandoned commit, one visible commit per surviving change id with its description, parents are the current versions of the intended parents, normal and conflicted bookmarks follow (every added side){cut_note}, seed {seed}"))
 }
 
 /// number of random cases: the default, times env CEX_BUDGET_X (for deeper searches); always the same for the same
